@@ -36,13 +36,21 @@ def run_history(chk, uni, drv, rng, stats):
     derived = []       # probes derived from the root (a deactivation may be asked through any of them)
 
     def attach():
-        kind = rng.choice(KINDS)
+        kind = rng.choice(KINDS + (["raiser"] if rng.random() < 0.4 else []))
         out = []
         src = probe[focus]
         derived.append(src)
-        obs = src if kind == "accum" else getattr(src, kind)()
-        obs.subscribe(on_next=out.append, on_error=lambda e: out.append("ERR:" + type(e).__name__),
-                      on_completed=lambda: out.append("done"))
+        if kind == "raiser":
+            # a subscriber that raises when the stream completes (what `p["a"].min().print()` does on an empty
+            # stream): the deactivation lets the error through, and is a deactivation all the same
+            def completed(out=out):
+                out.append("done")
+                raise uni.mod.Oops("raised at completion")
+            src.subscribe(on_next=out.append, on_completed=completed)
+        else:
+            obs = src if kind == "accum" else getattr(src, kind)()
+            obs.subscribe(on_next=out.append, on_error=lambda e: out.append("ERR:" + type(e).__name__),
+                          on_completed=lambda: out.append("done"))
         stages.append({"kind": kind, "out": out, "expected": [], "live": not done})
         model_ops.append({"op": "attach", "p": 0, "stage": len(stages) - 1})
         hist.append({"op": "attach", "kind": kind})
@@ -93,13 +101,27 @@ def run_history(chk, uni, drv, rng, stats):
             exc = rng.random() < 0.4 and not api
             hist.append({"op": "deactivate", "exc": exc, "api": api})
             model_ops.append({"op": "deactivate", "p": 0})
-            if exc:
-                e = uni.mod.Oops("x")
-                probe.__exit__(type(e), e, None)
-            elif api:
-                rng.choice([probe] + derived).deactivate()
-            else:
-                probe.__exit__(None, None, None)
+            raisers = [st for st in stages if st["live"] and st["kind"] == "raiser"]
+            hist[-1]["stages_raising_at_completion"] = len(raisers)
+            raised = None
+            try:
+                if exc:
+                    e = uni.mod.Oops("x")
+                    probe.__exit__(type(e), e, None)
+                elif api:
+                    rng.choice([probe] + derived).deactivate()
+                else:
+                    probe.__exit__(None, None, None)
+            except uni.mod.Oops as e_:
+                raised = e_
+            import ptera.probe as PP
+            if bool(raisers) != (raised is not None):
+                chk.violation("oracle", "deactivation with %d subscriber(s) raising at completion %s" % (
+                    len(raisers), "raised " + repr(raised) if raised else "raised nothing"), {"selector": sel, "history": hist})
+            if probe in PP.global_probes:
+                chk.violation("oracle", "after its deactivation (a subscriber raised when the stream completed) the probe "
+                              "is still registered as active", {"selector": sel, "history": hist})
+            chk.dist("deactivation: a subscriber raises at completion" if raisers else "deactivation")
             active = False
             done = True
             for st in stages:
@@ -157,27 +179,38 @@ def run_history(chk, uni, drv, rng, stats):
         for si, st in enumerate(stages):
             exp = st["expected"]
             k = st["kind"]
-            if k == "accum":
+            if k in ("accum", "raiser"):
                 want = list(exp) + (["done"] if done and st["live"] is False and st_was_attached_before_done(st, stages, hist) else [])
             else:
                 want = None
             got = st["out"]
             # events
-            if k == "accum":
+            if k in ("accum", "raiser"):
                 if [g for g in got if g != "done"] != exp:
                     chk.violation("oracle", "stage %d (accum) of %r holds %r, events delivered while attached and "
                                   "active were %r" % (si, sel, got, exp), {"selector": sel, "history": hist})
             if got.count("done") > 1:
                 chk.violation("oracle", "stage %d completed %d times" % (si, got.count("done")),
                               {"selector": sel, "history": hist})
-            if not done and k != "accum" and got:
+            if not done and k not in ("accum", "raiser") and got:
                 chk.violation("oracle", "reducing stage %d (%s) published %r before the stream completed" % (si, k, got),
                               {"selector": sel, "history": hist})
     # ---- final: reductions publish exactly one result computed from exactly the delivered events
     if active:
         hist.append({"op": "deactivate", "exc": False})
         model_ops.append({"op": "deactivate", "p": 0})
-        probe.__exit__(None, None, None)
+        raisers = [st for st in stages if st["live"] and st["kind"] == "raiser"]
+        try:
+            probe.__exit__(None, None, None)
+            raised = False
+        except uni.mod.Oops:
+            raised = True
+        import ptera.probe as PP
+        if bool(raisers) != raised or probe in PP.global_probes:
+            chk.violation("oracle", "deactivation with %d subscriber(s) raising at completion: %s; the probe is %s "
+                          "registered as active" % (len(raisers), "raised" if raised else "raised nothing",
+                                                    "still" if probe in PP.global_probes else "no longer"),
+                          {"selector": sel, "history": hist})
         done = True
         for st in stages:
             st["completed_now"] = st["live"]
@@ -191,7 +224,7 @@ def run_history(chk, uni, drv, rng, stats):
     for si, st in enumerate(stages):
         exp, k, got = st["expected"], st["kind"], st["out"]
         attached_before_done = st.get("attached_live", True)
-        if k == "accum":
+        if k in ("accum", "raiser"):
             want_vals = exp
         elif k == "count":
             want_vals = [len(exp)]
@@ -213,7 +246,7 @@ def run_history(chk, uni, drv, rng, stats):
         if was_completed and want_vals is not None and got.count("done") != 1:
             chk.violation("oracle", "stage %d (%s) completed %d times" % (si, k, got.count("done")),
                           {"selector": sel, "history": hist})
-        if not was_completed and (vals if k != "accum" else False):
+        if not was_completed and (vals if k not in ("accum", "raiser") else False):
             chk.violation("oracle", "stage %d (%s) attached after the stream ended published %r" % (si, k, got),
                           {"selector": sel, "history": hist})
     # ---- model correspondence: which stage received how many events, completion order
@@ -226,7 +259,7 @@ def run_history(chk, uni, drv, rng, stats):
                 for s in sts:
                     m_events[s] = m_events.get(s, 0) + 1
     i_events = {si: len(st["expected"]) for si, st in enumerate(stages) if st["expected"]}
-    i_accum_ok = all(len([g for g in st["out"] if g != "done"]) == len(st["expected"]) for st in stages if st["kind"] == "accum")
+    i_accum_ok = all(len([g for g in st["out"] if g != "done"]) == len(st["expected"]) for st in stages if st["kind"] in ("accum", "raiser"))
     m_completed = [s for (_, s) in (trace[-1]["state"]["completed"] if trace else [])]
     i_completed = [si for si, st in enumerate(stages) if "done" in st["out"] or any(str(g).startswith("ERR") for g in st["out"])]
     stats["histories"] += 1
@@ -292,7 +325,7 @@ def run(chk):
     exit_hook(chk, chk.rng)
     chk.assumptions += [
         "giving.SourceProxy (_push iterates the observers; __exit__ completes them, clears them, then calls _exit) and the reactivex operators are external: modelled and validated by this correspondence, not verified",
-        "sum/min/max/last of an empty stream end with reactivex's SequenceContainsNoElementsError: not checked",
+        "sum/min/max/last of an empty stream end with reactivex's SequenceContainsNoElementsError, delivered to the stage's error handler: the value is not checked (a subscriber that RAISES at completion is: finding F40)",
     ]
     uni.drop()
 
